@@ -280,8 +280,16 @@ class Check:
                                                       for line in a):
                     closed += 1
                     self.assumptions.append(f"theorem {t['theorem']} depends on standard-library axioms: " + " ".join(a)[:300])
-        self.discharged += closed
         self.notes["print_assumptions"] = rep["printed"]
+        if self.tier == "thorough" and rep["ok"]:
+            # independent re-check of the compiled property file and everything it depends on
+            rc, out = run(["timeout", "1500", "coqchk", "-o", "-silent", "-Q", COQ, "Elex", f"Elex.Properties.{self.prop}"], 1600, cwd=COQ)
+            m = re.search(r"\* Axioms:(.*?)\n\s*\n\* Constants", out, flags=re.S)
+            self.notes["coqchk"] = {"rc": rc, "axioms": " ".join((m.group(1) if m else out[-300:]).split())}
+            if rc != 0:
+                closed = 0
+                self.notes["coqchk"]["failed"] = out[-500:]
+        self.discharged += closed
         if bad:
             self.notes["forbidden"] = bad
         return rep["ok"] and not bad, rep
@@ -351,6 +359,7 @@ class Check:
             "samples": self.samples or [{"note": "no generated case this run"}],
             "print_assumptions": self.notes.get("print_assumptions", []),
             "translator_problems": self.notes.get("translator_problems", []),
+            "coqchk": self.notes.get("coqchk", "thorough tier only"),
             "known_findings_reported": sorted(self.known_hits),
         }
         if exhaustive is not None:
